@@ -189,6 +189,40 @@ func strModelSelfTest(rng *rand.Rand) int {
 			}
 		}
 	}
+	pbase := symStr("sp", 5)
+	plen := NewVarRange("sp.len", 8, 0, 5)
+	ps := pbase.Slice(BV(0, 64), ZExt(plen, 64))
+	v16, x16 := symParseIntTerms(ps, 16, false)
+	v10, x10 := symParseIntTerms(ps, 10, true)
+	palpha := []byte("0123456789abcdefABCDEF+-gG_ x")
+	for i := 0; i < 100000; i++ {
+		l := rng.Intn(6)
+		model := map[string]uint64{"sp.len": uint64(l)}
+		bs := make([]byte, 5)
+		for j := range bs {
+			bs[j] = palpha[rng.Intn(len(palpha))]
+			if rng.Intn(20) == 0 {
+				bs[j] = byte(rng.Intn(256))
+			}
+			model[fmt.Sprintf("sp[%d]", j)] = uint64(bs[j])
+		}
+		gs := string(bs[:l])
+		memo := map[*Term]uint64{}
+		u, uerr := strconv.ParseUint(gs, 16, 64)
+		if (evalTerm(v16, model, memo) == 1) != (uerr == nil) || (uerr == nil && evalTerm(x16, model, memo) != u) {
+			bad++
+			if bad < 10 {
+				fmt.Fprintf(os.Stderr, "ParseUint model mismatch on %q\n", gs)
+			}
+		}
+		d, derr := strconv.ParseInt(gs, 10, 64)
+		if (evalTerm(v10, model, memo) == 1) != (derr == nil) || (derr == nil && int64(evalTerm(x10, model, memo)) != d) {
+			bad++
+			if bad < 10 {
+				fmt.Fprintf(os.Stderr, "ParseInt model mismatch on %q\n", gs)
+			}
+		}
+	}
 	hv := NewVar("sm.h", 32)
 	h4, h1 := fmtHex(hv, 4, false), fmtHex(hv, 1, true)
 	for i := 0; i < 100000; i++ {
